@@ -45,6 +45,9 @@ class Instruction(_mixins.DictMixin, _mixins.RegisterMixin, _mixins.CodeMixin):
         self._condition: Optional[Callable] = None
 
         self._unresolved_params = self._get_unresolved_params(self._params)
+        self._original_unresolved_params = {
+            name: self._params[name] for name in self._unresolved_params
+        }
 
     @staticmethod
     def _get_unresolved_params(params: dict) -> dict:
@@ -95,7 +98,9 @@ class Instruction(_mixins.DictMixin, _mixins.RegisterMixin, _mixins.CodeMixin):
         self._params.update(_resolved_params)
 
     def _unresolve_params(self):
-        self._params.update(self._unresolved_params)
+        # NOTE: The parameters as specified by the user (callables or expression
+        # strings) are restored, not the `Expression` objects parsed from them.
+        self._params.update(self._original_unresolved_params)
 
     @property
     def modes(self) -> Tuple[int, ...]:
